@@ -167,7 +167,10 @@ class FFDirector(SectionLineParser):
             self.current_block.make_edges_from_interactions()
             self.force_field.blocks[self.current_block.name] = self.current_block
 
-        if self.current_link is not None:
+        # The contexts are never reset, so a link must only be registered when
+        # it is a link section that ends; otherwise it would be appended again
+        # each time a later top-level section ends.
+        if self.current_link is not None and previous_section[:1] == ['link']:
             # add FF wide citations
             self.current_link.citations.update(self.citations)
             self.current_link.make_edges_from_interactions()
